@@ -142,21 +142,25 @@ def matvec(M, p):
 
 def gen_mesh(r, tier="quick", small=False):
     """returns dict(kind, v, f) : unit-size closed outward-oriented mesh (before scale/offset)"""
-    kind = r.choice(["ico", "ico", "octa", "uv", "uv", "tetra"]) if not small else r.choice(["tetra", "octa", "ico0", "uv_s"])
+    kind = r.choice(["ico", "ico", "octa", "uv", "uv", "uv", "tetra"]) if not small else r.choice(["tetra0", "octa0", "ico0", "uv_s"])
     if kind == "ico":
         v, f = icosahedron()
-        k = r.choice([0, 1, 1, 2, 2] + ([3] if tier == "thorough" else []))
+        k = r.choice([1, 1, 2, 2] + ([3, 3] if tier == "thorough" else []))
         for _ in range(k):
             v, f = subdivide(v, f)
     elif kind == "ico0":
         v, f = icosahedron()
     elif kind == "octa":
         v, f = octahedron()
-        for _ in range(r.choice([0, 1, 2, 3] + ([4] if tier == "thorough" else []))):
+        for _ in range(r.choice([1, 2, 3, 3] + ([4] if tier == "thorough" else []))):
             v, f = subdivide(v, f)
+    elif kind == "octa0":
+        v, f = octahedron()
+    elif kind == "tetra0":
+        v, f = tetrahedron()
     elif kind == "tetra":
         v, f = tetrahedron()
-        for _ in range(r.choice([0, 1, 2, 3])):
+        for _ in range(r.choice([1, 2, 3, 4])):
             v, f = subdivide(v, f)
     elif kind == "uv_s":
         v, f = uvsphere(r.randint(3, 5), r.randint(2, 3))
